@@ -8,4 +8,5 @@ pub mod fam_atomic;
 pub mod fam_lock;
 pub mod fam_mpsc;
 pub mod fam_sync;
+pub mod fam_thread;
 pub mod prog;
